@@ -71,6 +71,11 @@ BUILDS["tsync"] = {"files": ["time_sync.rs"], "consts": {}}
 BUILDS["sess_ep"] = {"files": ["input_queue.rs", "sync_layer.rs", "network__protocol.rs", "sessions__p2p_session@ep.rs"],
                      "consts": {"INPUT_QUEUE_LENGTH": 8, "VCOLL_CAP": 4}}
 
+BUILDS["sess_calls"] = {"files": ["input_queue.rs", "sync_layer.rs", "network__protocol.rs", "sessions__p2p_session.rs", "sessions__p2p_session@calls.rs"],
+                        "consts": {"INPUT_QUEUE_LENGTH": 8, "VCOLL_CAP": 4, "MAX_EVENT_QUEUE_SIZE": 4, "MAX_CHECKSUM_HISTORY_SIZE": 4}}
+BUILDS["spect"] = {"files": ["network__protocol.rs", "sessions__p2p_spectator_session.rs"], "consts": {"SPECTATOR_BUFFER_SIZE": 8, "VCOLL_CAP": 4}}
+BUILDS["synct"] = {"files": ["input_queue.rs", "sync_layer.rs", "sessions__sync_test_session.rs"], "consts": {"INPUT_QUEUE_LENGTH": 8, "VCOLL_CAP": 4}}
+
 RING = {"extend_with": 17}
 def Q(n, **kw):
     kw.setdefault("timeout", 900); kw.setdefault("mem", 10); kw.setdefault("timeout_thorough", 5400); kw.setdefault("mem_thorough", 24)
@@ -104,6 +109,25 @@ U_HANDSHAKE = [U(n) for n in ["u_handshake_step", "u_sync_reply_after_handshake_
 U_QUALITY = [U(n) for n in ["u_local_frame_advantage", "u_quality_report_and_reply", "u_quality_report_sent", "u_network_stats_contract"]]
 U_CHECKSUM = [U("u_checksum_report_store_bounded")]
 M_ALL = [H(n, "tsync", mem=6, timeout=600) for n in ["m_average_within_one", "m_steady_lead", "m_advance_frame_slot"]]
+def PC(n, **kw):
+    kw.setdefault("mem", 10); kw.setdefault("timeout", 900)
+    hints = {"extend_with": 9}
+    hints.update(kw.pop("unwindset", {}))
+    return H(n, "sess_calls", unwindset=hints, **kw)
+
+PC_INPUT = [PC("pc_input_event")]
+PC_DISC = [PC("pc_disconnect_player_contract"), PC("pc_disconnected_event")]
+PC_EVENTS = [PC("pc_event_forwarding_and_cap"), PC("pc_wait_recommendation_respects_cap"), PC("pc_running_iff_all_synchronized")]
+PC_WAIT = [PC("pc_wait_recommendation_gate")]
+PC_CHECKSUM = [PC(n, mem=12) for n in names_in("sessions__p2p_session@calls.rs", "pc_checksum_send_gate_.*")] + [PC("pc_checksum_compare")]
+PC_MISUSE = [PC("pc_misuse_errors", timeout=1200), PC("pc_advance_not_synchronized"), PC("pc_advance_input_missing")]
+V_ALL = [H(n, "spect", mem=8, timeout=900, unwindset={"SpectatorSession": 9, "drop_glue": 2})
+         for n in names_in("sessions__p2p_spectator_session.rs", "v_advance_.*") if n != "v_advance_r21_behind7_catchup9"] + \
+        [H("v_input_event_step", "spect", mem=8, timeout=900),
+         H("v_advance_r21_behind7_catchup9", "spect", tier="thorough", mem=24, timeout=2400, unwindset={"SpectatorSession": 9, "drop_glue": 2})]
+T_UNIT = [H("t_checksum_comparison", "synct", mem=8, timeout=900, unwindset={"extend_with": 9})]
+U_NORESUME = [U("u_no_resume_after_disconnect")]
+
 PE_CUTOFF = [H("pe_cutoff_agreement_gossip_not_earlier", "sess_ep", timeout=900, mem=12, unwindset={"extend_with": 9}),
              H("pe_cutoff_agreement_gossip_earlier", "sess_ep", timeout=900, mem=12, unwindset={"extend_with": 9}, finding="F3")]
 
@@ -127,35 +151,43 @@ P("C03", Q_INPUT + Q_ADD + S_INPUTS,
 P("C05", U_LOSTACK + U_STREAM_Q + U_HANDSHAKE + U_STREAM_T,
   "Lost-ack lemma on the real on_input: a retransmission whose base frame the receiver has already pruned (1/3/5 lost acks for prediction window 0/1/2) is answered with an ack for the receiver's newest frame, so the sender's base moves forward; acks release exactly the acknowledged prefix and leave the pending outputs starting right after the new base; duplicates/overlaps are skipped without double delivery; handshake: one inductive step from any Synchronizing state on any SyncReply, retry timer.",
   "Bounded liveness over multi-packet fault schedules with two live endpoints is not run (cost); the lemma plus the ack/stream contracts are its inductive core.")
-P("C07", U_TIMERS + S_MIN + S_INPUTS,
+P("C07", U_TIMERS + S_MIN + S_INPUTS + PC_DISC,
   "Timers on the real poll(): NetworkInterrupted iff not yet announced and silence > notify delay (payload timeout-notify), Disconnected iff not yet sent and silence > timeout, never earlier, each once, in this order; rollback target includes the disconnect frame (min); a disconnected player's inputs are default/Disconnected exactly for frames after its last real one.",
   "The survivor's multi-tick timeline after a drop is covered only through these contracts.")
 P("C08", U_MALFORMED + U_LIVENESS + [h for h in K_QUICK if h["name"].startswith(("k_rle_stage_total", "k_rle_guard", "k_delta_total"))],
   "On the real handle_message/on_input/decode: an input packet with a wrong number of connection statuses or ANY negative start frame is dropped with no effect at all (no ack processed, no gossip merged, nothing delivered, no reply); a packet with another session's magic has no effect and does not refresh the receive timer; every byte string (<= 3 bytes through the RLE stage, <= 5 through the guard, every delta shape <= 5 bytes) is decoded or rejected without panic/overflow/OOB and without oversized allocation.",
   "Narrow reading of 'wrong size': payload not divisible by the player count or not deserialisable; a header-valid packet with garbage payload still has its ack/gossip processed (as the code documents).")
-P("C09", U_CHECKSUM,
+P("C09", U_CHECKSUM + PC_CHECKSUM,
   "Checksum report store of an endpoint stays within its cap under in-order reports (cap regenerated to 4), oldest entry dropped first, newest stored.",
   "Only the buffer/ordering kernel; the no-false-alarm half needs multi-tick session runs (outside reach).")
-P("C10", PE_CUTOFF + S_MIN,
+P("C10", PE_CUTOFF + S_MIN + PC_INPUT,
   "Cut-off agreement kernel on the real update_player_disconnects with real endpoints: when a surviving peer gossips that a player is disconnected as of frame m and this peer holds its inputs up to L, this peer adopts min(L, m), schedules the resimulation from the next frame and does not re-arm it on the next tick.",
   "KNOWN FINDING F3: for m < L the unchanged tree keeps last_frame = L (see known_findings.json).")
 P("C11", Q_DELAY + Q_ADD,
   "InputQueue delay change in steady state: the fills set_frame_delay announces are exactly the frames and values the queue stores when the next input is added (gapless, repeat-last); a decrease drops the next submission.",
   "Sequences of changes before the queue has drained are a known finding candidate (F4) not yet witnessed by a harness.")
-P("C12", U_HANDSHAKE + U_LIVENESS + U_TIMERS + U_CAP,
+P("C12", U_HANDSHAKE + U_LIVENESS + U_NORESUME + U_TIMERS + U_CAP + PC_EVENTS,
   "Lifecycle on the real endpoint: Synchronizing counts 1..4 then exactly one Synchronized after five distinct matched round trips (duplicates/stray/foreign replies do not count); NetworkResumed iff an interruption was announced; interruption/disconnect timers; a silent peer over the pending-output cap is asked to disconnect exactly once.",
   "Session-level forwarding and the event-queue cap are not yet covered.")
 P("C14", K_QUICK + K_THOROUGH, PROPERTIES["C14"]["claim"], PROPERTIES["C14"]["note"],
   bounds=PROPERTIES["C14"]["bounds"], outside=PROPERTIES["C14"]["outside"], assumptions=PROPERTIES["C14"]["assumptions"])
-P("C15", M_ALL + U_QUALITY,
+P("C15", M_ALL + U_QUALITY + PC_WAIT,
   "Kernel only: TimeSync average (f32 bit-precise) within one frame of the true mean difference and within one of k in a steady k-frame lead; frame-advantage formula; quality report/reply bookkeeping (ping = now - echoed timestamp, what one side reports as local is the other's remote); network_stats error/values contract.",
   "The closed-loop settling claims need >= 30 frames of two live sessions: outside reach.", level="other")
 P("C17", U_HANDSHAKE,
   "Handshake behaviour is the same function of message order for every value of the random nonces (nonces symbolic in the inductive step).",
   "Hash-order independence (solver-chosen permutations of map iteration) not yet built.")
-P("C18", U_CAP + U_CHECKSUM + U_STREAM_Q + Q_ADD,
+P("C18", U_CAP + U_CHECKSUM + U_STREAM_Q + Q_ADD + PC_EVENTS[:2],
   "Bounds on the real buffers: remembered received inputs stay within [newest-2w, newest]; unacknowledged outputs of a silent peer trigger exactly one disconnect request at the cap; checksum store <= cap; InputQueue length <= ring size.",
   "Session-level buffers (event queue, outgoing local inputs) not yet covered.")
 
-for pid in ("C04", "C06", "C13", "C16"):
-    NOT_APPLICABLE[pid] = "harnesses for this property are still being built in this phase; no claim is made yet"
+P("C06", V_ALL + S_INPUTS[1:],
+  "Spectator replay on the real SpectatorSession::advance_frame from ring states an in-order feed produces (positions enumerated: level, 1/3/5/7 behind, exactly one ring lap and more behind, start of session; inputs, gossip symbolic): request count = catch-up contract, each request carries exactly the buffered inputs of its frame with Disconnected exactly where the host's gossip says so, cursor advances by the number delivered, PredictionThreshold iff not yet received, SpectatorTooFarBehind iff overwritten; in-order input events maintain the ring; host side: confirmed_inputs blanks exactly players disconnected as of an earlier frame.",
+  "advance_frame's initial poll_remote_clients() is stubbed out in the V harnesses (host endpoint poll is decided by the U harnesses; with an empty socket it cannot touch the ring). Ring of 8 slots instead of 60. The host->spectator stream over a lossy link is covered by the C05/C01 endpoint contracts only.")
+P("C13", T_UNIT,
+  "Checksum comparison kernel of the real SyncTestSession::checksums_consistent for every frame of the check window: the first checksum of a frame is remembered, a later differing re-simulation is flagged, an equal one is not, history outside the window is dropped.",
+  "Whole sync-test runs (request contract over several ticks, detection latency <= check_distance+2) and the builder's rejection of check_distance >= window could not be executed symbolically within the caps (see probes/attempted/README.md): only the kernel is claimed.")
+P("C16", PC_MISUSE + PC_DISC[:1],
+  "Run-time misuse on the real P2PSession: input for a remote/unknown handle, delay change or stats for the wrong player type, advancing with the local input missing or before synchronisation, disconnecting a local/unknown/already disconnected player (also via the sibling handle of the same address) return the documented error and leave frame counter, event queue, pending inputs, statuses and send queues unchanged.",
+  "The SessionBuilder half of the property (accepted configurations == documented ones) is NOT decided: the by-value builder with three endpoint maps exceeds 25 min of symbolic execution per call sequence and triggers a Kani internal compiler error with the inline container model (probes/attempted/README.md).")
+NOT_APPLICABLE["C04"] = "harnesses for this property are still being built in this phase; no claim is made yet"
